@@ -12,7 +12,7 @@ def check(run, record_expected=False):
         return ded
     for func, items in sync_ded.c10_items():
         deductive.add_evaluated(run, ded, items, func)
-    results = S.run_projects(run.tier)
+    results = S.run_projects(run.tier, newline_variants=(True, False))
     n_ok = S.report(run, results, "idem", "idem")
     cov = C09._coverage(ded, results, n_ok,
                         "DEDUCTIVE: on every path of _conform_filename the returned flag equals 'the effect log contains a write to this file' and only the "
